@@ -423,6 +423,22 @@ void ApiRun::op_plant_fail(const Op &o) {
             if (c.iter < 0) { have_good = false; break; }
             int ord = 0, cnt = 0; for (size_t i = 0; i < cifs.size(); ++i) if (cifs[i].cif && cifs[i].iter >= 0) { if ((int) i == ci) ord = cnt; ++cnt; }
             Op nx; nx.k = O_IterNext; nx.pk_mode = 1; nx.seed = o.seed ^ 22; nx.a = (uint32_t) ord; op_iter_next(nx);
+            if (c.iter >= 0 && r.chance(1, 2)) {
+                // prelude inside the same transaction: a query or a refused call on ANOTHER loop (calls that take and leave savepoints of
+                // their own), then a valid update of the delivered packet -- the refusal planted next must not take that update with it
+                std::vector<int> others; for (int s : lslots) if (s != it_loop && loops[(size_t) s].loop_uid != loops[(size_t) it_loop].loop_uid) others.push_back(s);
+                int saved = cur_kind;
+                if (!others.empty()) {
+                    int t2 = others[r.below(others.size())]; Op pre; pre.seed = o.seed ^ 24; pre.b = 1;
+                    MCont *tc = find_cont(c.model, loops[(size_t) t2].cont_uid);
+                    std::vector<MName> ex; if (tc) for (auto &l : tc->loops) if (l.uid != loops[(size_t) it_loop].loop_uid) for (auto &n : l.names) ex.push_back(n);
+                    if (r.chance(1, 2) && !ex.empty()) { pre.k = O_LoopAddItem; pre.names.push_back(name_of(ex[r.below(ex.size())])); } else pre.k = O_LoopNames;
+                    forced_loop = t2; cur_kind = pre.k; try { exec(pre); } catch (...) { forced_loop = -1; cur_kind = saved; throw; } forced_loop = -1;
+                }
+                if (c.iter >= 0) { Op g0; g0.k = O_IterUpdate; g0.a = (uint32_t) ord; g0.pk_mode = (int) r.below(2); g0.seed = o.seed ^ 23; cur_kind = g0.k; try { exec(g0); } catch (...) { cur_kind = saved; throw; } }
+                cur_kind = saved; g_stats.inc("plant.iter_update_foreign.prelude");
+                if (c.iter < 0) { have_good = false; break; }
+            }
             bad.k = good.k = O_IterUpdate; bad.a = good.a = (uint32_t) ord; bad.pk_mode = 3; bad.pos = o.pos; good.pk_mode = (int) r.below(2);
             bad.names = fresh_names(find_cont(c.model, loops[(size_t) it_loop].cont_uid), 1, o.seed ^ 8); if (bad.names.empty()) { NameRef nr; bad.names.push_back(nr); }
             inside = true; fc = -1;
